@@ -47,8 +47,9 @@ PRIORITY = [
     "crash:enum-mapping", "unnormalised:array-of-enum", "dropped:set-items",
     "optional-unchecked:non-none-option", "optional-unchecked:none-first", "optional-unchecked:set",
     "none-attribute-hash:set-of-structures",
-    "mapper:cascade", "mapper:fallback", "dropped:undeclared-keys", "unnormalised:boolean-string", "defaults-not-applied",
+    "dropped:undeclared-keys", "unnormalised:boolean-string", "defaults-not-applied",
     "unnormalised:enum-name", "unnormalised:inline-dict", "unnormalised:rebuilt-collection", "unnormalised:float-int",
+    "mapper:cascade",
     "fast:tuple-index", "fast:positional-index", "fast:json-dumps", "fast:untyped-raw", "fast:inline-none-keys",
     "fast:multi-wrapper", "fast:nonfast-nested", "fast:mapper-cascade", "fast:compact-conditions", "fast:extras-dropped",
     "decimal",
@@ -168,8 +169,8 @@ def judge_trusted(case, impl, model):
                         detail = json.dumps(sx["ok"])[:150] + " vs " + json.dumps(sy["ok"])[:150]
             if what:
                 tag_list = list(model.get("declDefects", [])) + list(model.get("docIssues", []))
-                if not mapper_free:
-                    tag_list.append("mapper:cascade" if model.get("cascade") else "mapper:fallback")
+                if not mapper_free and model.get("cascade"):
+                    tag_list.append("mapper:cascade")
                 in_region = bool(mapper_free and model.get("tsafe") and model.get("plain"))
                 explained = m_tru is None and (m_reg is None)
                 key = attribute(what, in_region, explained, tag_list)
